@@ -111,7 +111,13 @@ for pre in job.get('pre_exec', []):
     exec(pre, {'__name__': 'replay_pre'})
 mod = importlib.import_module(job['module'])
 fn = mod
-for p in job['qualname'].split('.'):
+if job.get('lemma_src'):
+    import textwrap
+    ns = dict(vars(mod))
+    exec(textwrap.dedent(job['lemma_src']), ns)
+    fn = ns[job['qualname']]
+else:
+  for p in job['qualname'].split('.'):
     fn = fn.__dict__[p] if isinstance(fn, type) else getattr(fn, p)
 if isinstance(fn, staticmethod): fn = fn.__func__
 if isinstance(fn, property): fn = fn.fget
@@ -314,11 +320,15 @@ def native_replay(pid, contract, ob, repo):
         holder['pre_exec'] = list(getattr(b, 'pre_exec', []))
         holder['provided'] = list(getattr(b._b, 'provided', []))
         return 'ok'
+    saved_loops, saved_contracts = I.loopspecs, I.contracts
+    I.loopspecs = {}            # concrete pre-state: loops simply run, callees run their own bodies
+    I.contracts = {}
     try:
         I.explore(build)
     except Exception as e:
         info['why'] = 'pre-state construction failed: %r' % (e,)
         return info
+    I.loopspecs, I.contracts = saved_loops, saved_contracts
     args = holder['args']
     call_args = [v for k, v in args.items() if not k.startswith('_')]
     try:
@@ -333,7 +343,7 @@ def native_replay(pid, contract, ob, repo):
         info['why'] = 'injected provider cannot be rebuilt natively: %s' % e
         return info
     job = {'module': S.module_name_of(contract.path), 'qualname': contract.qualname, 'unwrap': contract.unwrap,
-           'args': enc_args, 'providers': providers if holder.get('provided') else None, 'pre_exec': holder.get('pre_exec', []) + list(getattr(contract, 'replay_pre_exec', []))}
+           'lemma_src': contract.src, 'args': enc_args, 'providers': providers if holder.get('provided') else None, 'pre_exec': holder.get('pre_exec', []) + list(getattr(contract, 'replay_pre_exec', []))}
     info['call'] = {'module': job['module'], 'function': job['qualname'], 'args': enc_args}
     with tempfile.TemporaryDirectory() as td:
         jp, op, dp = os.path.join(td, 'job.json'), os.path.join(td, 'out.json'), os.path.join(td, 'driver.py')
@@ -400,7 +410,14 @@ def native_replay(pid, contract, ob, repo):
     import z3
     if not isinstance(val, bool):
         val = z3.simplify(val)
-        val = True if z3.is_true(val) else False if z3.is_false(val) else None
+        if z3.is_true(val) or z3.is_false(val):
+            val = z3.is_true(val)
+        else:       # closed formula (e.g. quantified over a concrete set): decide it
+            sv = z3.Solver()
+            sv.set('timeout', 20000)
+            sv.add(z3.Not(val))
+            r = sv.check()
+            val = True if r == z3.unsat else False if r == z3.sat else None
     info['clause'] = clause
     info['clause_value_on_real_result'] = val
     info['reproduced'] = (val is False)
